@@ -92,9 +92,11 @@ def _complement(ranges):
 
 
 class Translator:
-    def __init__(self, flags=0):
+    def __init__(self, flags=0, ascii_only=False):
         self.flags = flags
         self.uniform_above = True
+        # bytes patterns and re.ASCII: \\w \\d \\s are the ASCII classes
+        self.ascii = ascii_only or bool(flags & re.ASCII)
 
     def charset(self, ranges):
         """ranges over the full Unicode range -> z3 regex over <= U+2FFFF, recording uniformity"""
@@ -118,14 +120,20 @@ class Translator:
                 neg = {sc.CATEGORY_NOT_WORD: 'word', sc.CATEGORY_NOT_DIGIT: 'digit',
                        sc.CATEGORY_NOT_SPACE: 'space'}.get(av)
                 if name:
-                    out += _category_ranges(name)
+                    out += self._cat(name)
                 elif neg:
-                    out += _complement(_category_ranges(neg))
+                    out += _complement(self._cat(neg))
                 else:
                     raise Unsupported(av)
             else:
                 raise Unsupported(op)
         return out
+
+    def _cat(self, name):
+        if self.ascii:
+            return {'word': [(48, 57), (65, 90), (95, 95), (97, 122)], 'digit': [(48, 57)],
+                    'space': [(9, 13), (32, 32)]}[name]
+        return _category_ranges(name)
 
     def item(self, op, av):
         if op is sc.LITERAL:
@@ -169,10 +177,13 @@ class Translator:
         op, av = p[0]
         rest = p[1:]
         if op is sc.AT:
+            if av in (sc.AT_BEGINNING, sc.AT_BEGINNING_STRING):
+                return self.seq_k(rest, k)      # (only used at the start of match() patterns)
             if av in (sc.AT_END_STRING, sc.AT_END):
                 # (AT_END `$` also matches before a final \n; parso only uses \Z)
                 if av is sc.AT_END:
-                    raise Unsupported('$')
+                    # `$`: end of input, or just before a final newline
+                    return z3.Intersect(self.seq_k(rest, k), z3.Union(EPS, z3.Re('\n')))
                 return z3.Intersect(self.seq_k(rest, k), EPS)
             raise Unsupported(av)
         if op is sc.BRANCH:
@@ -216,6 +227,8 @@ def parse(pattern, flags=0):
     if hasattr(pattern, 'pattern'):
         flags = pattern.flags
         pattern = pattern.pattern
+    if isinstance(pattern, bytes):
+        pattern = pattern.decode('latin-1')
     return sp.parse(pattern, flags)
 
 
